@@ -25,13 +25,19 @@ def run(tier="quick", seed=0):
 
     hangs = [0]
 
+    class _SubRRC(RRC):
+        pass
+
+    class _SubARC(ARC):
+        pass
+
     def ranges_overlap(a, b):
         return max(a.start, b.start) < min(a.stop, b.stop)
 
     def check(vr, machine, constraints, placements, expect_success, tag):
         nonlocal ev
         ev += 1
-        # the FORM in which the constraints arrive rotates: a list, a tuple, a one-shot iterator, a generator (rig's own
+        # the FORM in which the constraints arrive rotates: a list, a tuple, a one-shot iterator, a generator; every fifth time as instances of subclasses of the constraint classes (rig's own
         # _get_minimal_core_reservations is one); every seventh time the reserved ranges are given with numpy integers as
         # bounds (unsigned 32-bit, signed 64-bit, unsigned 8-bit in turn), as they are when they come out of array code
         given = list(constraints)
@@ -40,6 +46,10 @@ def run(tier="quick", seed=0):
             nt = (np.uint32, np.int64, np.uint8)[(ev // 7) % 3]
             given = [RRC(c.resource, slice(nt(c.reservation.start), nt(c.reservation.stop)), c.location)
                      if isinstance(c, RRC) and 0 <= c.reservation.start <= c.reservation.stop < 200 else c for c in given]
+        if ev % 5 == 3:
+            # constraints of the caller's own classes derived from the library's (a "reserve the monitor" constraint, say): they ARE
+            # reservations / alignments, and every placer treats them as such
+            given = [_SubRRC(c.resource, c.reservation, c.location) if type(c) is RRC else _SubARC(c.resource, c.alignment) if type(c) is ARC else c for c in given]
         form = ev % 4
         passed = given if form == 0 else tuple(given) if form == 1 else iter(given) if form == 2 else (c for c in given)
         try:
